@@ -199,6 +199,23 @@ def gen_cases(r, tier, n_random=8):
                 for i in range(8):
                     ops += [["mutate", i], ["map", i + 1], ["map", i]]
                 cases.append({"op": "rep", "decl": d, "rep": rep, "seed": r.randrange(10**6), "ops": ops})
+    # families: founders are mapped (dSGE extends them on demand), crossed, and every offspring - which may have inherited an
+    # empty or short gene list for a symbol only the other parent used - is mapped twice with unrelated draws in between
+    kin = [H([A(), P(0, INT), P(0, BOOL), P(0, S(0), S(0)), P(0, BOOL, S(0))]), fam[1], fam[0]]
+    for d in kin:
+        for rep in ({"kind": "dsge", "max_depth": 3}, {"kind": "dsge", "max_depth": 5}, {"kind": "sge", "decider": ["max", 4], "gene_length": 4},
+                    {"kind": "ge", "decider": ["max", 4], "gene_length": 6}):
+            for _ in range(2 if not big else 6):
+                ops = [["create"], ["create"], ["create"], ["map", 0], ["map", 1], ["map", 2]]
+                size, pool = 3, [0, 1, 2]
+                for i in range(5 if not big else 9):
+                    a, b = r.sample(pool, 2)
+                    ops.append(["cross", a, b])
+                    c1, c2 = size, size + 1
+                    size += 2
+                    ops += [["map", c1], ["draw", 0, 1000], ["map", c1], ["map", c2], ["map", c2]]
+                    pool += [c1, c2]
+                cases.append({"op": "rep", "decl": d, "rep": rep, "seed": r.randrange(10**6), "ops": ops})
     for _ in range(n_random if not big else 5 * n_random):
         d = grammars.gen_decl(r, {"weights": False, "tuples": True, "dependent": False})
         for rep in r.sample(rep_specs(r), 2):
